@@ -431,8 +431,11 @@ pub fn execute(scn: &Scn, property: &str) -> RunOutcome {
                         } else {
                             tau_s >= u
                         };
+                        // is_ended compares two f32 numbers that each carry up to one rounding
+                        // (time in state -> f32; delay + cycle x cycles in f32): within 2 ulps of
+                        // the end instant either answer is within float rounding
                         let ulp = (f32::EPSILON as f64) * u.abs().max(1e-30);
-                        (exp, !scn.grid && (tau_s - u).abs() <= 4.0 * ulp + 2e-9)
+                        (exp, !scn.grid && (tau_s - u).abs() <= 2.0 * ulp + 2e-9)
                     }
                 };
                 if let Some(Some(u)) = total {
@@ -476,7 +479,7 @@ pub fn execute(scn: &Scn, property: &str) -> RunOutcome {
                                 m_tau >= u
                             };
                             let ulp = (f32::EPSILON as f64) * u.abs().max(1e-30);
-                            let in_band = !scn.grid && (m_tau - u).abs() <= 4.0 * ulp + 2e-9;
+                            let in_band = !scn.grid && (m_tau - u).abs() <= 2.0 * ulp + 2e-9;
                             !in_band && !band && exp != now.ended && model.tau != c07_tau
                         }
                     };
